@@ -28,6 +28,16 @@ def spec_simplifiers(case, violation=None, spec_key="spec"):
                 c = _c(case)
                 del c[spec_key]["weather"]["events"][i]
                 yield c
+    rx = spec.get("reactive") or []
+    if rx:
+        c = _c(case)
+        c[spec_key]["reactive"] = []
+        yield c
+        if len(rx) > 1:
+            for i in range(len(rx)):
+                c = _c(case)
+                del c[spec_key]["reactive"][i]
+                yield c
     # 2. configuration dimensions back to default
     for key in ("field", "fallow_field", "gw", "co2"):
         if spec.get(key) is not None:
